@@ -35,9 +35,9 @@ from ..flows import LogCapture, compile_flow_sheet, compile_index, rename_uuids_
 from ..gen import sheets as G
 
 MANIFEST = dict(
-    text="Proof: Lean theorems over a model of the templating step (mini template language lit/var/escVar/seq/forJoin/ifEq + native {@ path @}, contexts of nested records and lists, both Jinja `undefined` policies): undefined_is_error (a REACHED undefined reference makes a strict rendering an error — text, native, and at the parse_as_string/parse boundary for every context and padding), error_has_cause + undefined_error_kind (the error names a reached undefined reference; no spurious errors), defined_exact (all reached references usable ⇒ under both policies exactly the template with each reference replaced by its value), lenient_blank / needs_strict / needs_native_check (negative witnesses: what Jinja's default did before the fix), shortcut_exact (the no-`{` shortcut never skips a reference), omitted_unevaluated (context None ⇒ stripped cell, render never called), if_false_unevaluated / for_empty_unevaluated, policy_is_strict + tables_agree (T1: StrictUndefined on BOTH environments and the native Undefined check, re-extracted from the source by ast and from the live objects on every run). Tie: generated (template, context) pairs (every reference kind × every way of being missing) through the real CellParser vs the driver, lenient model vs Jinja's default environments; end to end: every cell of generated sheets with one injected missing name (library + CLI sample), defined control ≡ literal sheet, index workbooks, excluded blocks; one template instantiated several times in one run from differently shaped contexts (two data sheets with different columns in both orders, data sheet then none, bulk then single row, argument sets, insert_as_block twice, loop variables): every instantiation must behave exactly as in a fresh run of its own — rejected when it names something only an EARLIER instantiation defined, exact own values otherwise (library + CLI sample).",
+    text="Proof: Lean theorems over a model of the templating step (mini template language lit/var/escVar/seq/forJoin/ifEq + expressions {{ e }}, {{ e ~ f }}, {@ e @} over references, x|default('d') and list / tuple / dict literals and dict(k=…) calls nested to any depth + native {@ path @}, contexts of nested records and lists, three Jinja `undefined` policies: the repo's strict one whose repr() fails too, plain StrictUndefined, the default): undefined_is_error (a REACHED undefined reference — also one STORED at any depth of a container literal that is printed, concatenated or returned — makes a strict rendering an error: text, native (undefined_is_error_nativeE), and at the parse_as_string/parse boundary for every context and padding; stored_undefined / holds_str_error / holds_findUndef: the stored reference survives as an Undefined object which every print and the wrapper's deep search meet), needs_deep_strict / needs_deep_check (kernel-checked witnesses that under plain StrictUndefined / a top-level-only check `[nope]` is delivered without error: the fix of F-C16-c is needed), error_has_cause + undefined_error_kind (the error names a reached undefined reference; no spurious errors), defined_exact (all reached references usable ⇒ under both policies exactly the template with each reference replaced by its value), lenient_blank / needs_strict / needs_native_check (negative witnesses: what Jinja's default did before the fix), shortcut_exact (the no-`{` shortcut never skips a reference), omitted_unevaluated (context None ⇒ stripped cell, render never called), if_false_unevaluated / for_empty_unevaluated, policy_is_strict + tables_agree (T1: a StrictUndefined whose repr() fails on BOTH environments and the DEEP native Undefined check, read from the live objects and by behaviour probes on every run). Tie: generated (template, context) pairs (every reference kind × every way of being missing; the class of F-C16-c: an undefined name at every depth of nested list/tuple/dict/dict() literals, printed / concatenated on either side / returned natively, each with a defined twin and a default-protected twin) through the real CellParser vs the driver, lenient model vs Jinja's default environments, strictShallow model vs plain StrictUndefined environments; direct oracle on containers outside the model (an undefined name as element / dict value / dict KEY / dict() argument of a container used by join, first, last, list, string, map, sort, reverse, +, ~, an index, a loop, set); end to end: every cell of generated sheets with one injected missing name (library + CLI sample), defined control ≡ literal sheet, index workbooks, excluded blocks; one template instantiated several times in one run from differently shaped contexts (two data sheets with different columns in both orders, data sheet then none, bulk then single row, argument sets, insert_as_block twice, loop variables): every instantiation must behave exactly as in a fresh run of its own — rejected when it names something only an EARLIER instantiation defined, exact own values otherwise (library + CLI sample).",
     ref="§5 C16",
-    note="Trusts: Lean kernel (axioms audited each run); Jinja2's lexer/parser/evaluator on the generated fragment (modelled, compared on every case, not verified); harness printers and Driver JSON codec; the end-to-end clauses (delivered_no_blank over whole sheets) are checked on the real compiler per explored sheet, not proved (no compiler model for templated sheets). Known findings: F-C16-b (a single row with false include_if is templated before it is dropped), F-C16-c (an undefined name nested in a list/tuple/dict literal is delivered as `Undefined`).",
+    note="Trusts: Lean kernel (axioms audited each run); Jinja2's lexer/parser/evaluator on the generated fragment (modelled, compared on every case, not verified); harness printers and Driver JSON codec; the end-to-end clauses (delivered_no_blank over whole sheets) are checked on the real compiler per explored sheet, not proved (no compiler model for templated sheets). Known findings: F-C16-b (a single row with false include_if is templated before it is dropped), F-C16-d (residue of the fixed F-C16-c: an undefined name stored in a container that is only counted / indexed elsewhere / looped over without printing the element — `[nope]|length`, `[a, nope]|first`, `{% if [nope] %}` — is never used, so nothing fails).",
     technique="Lean 4 proof (induction on templates / on the Reached derivation) + T1 configuration tables + differential run against the real CellParser + fault injection at every cell of real sheets (library and CLI)",
 )
 
@@ -131,6 +131,12 @@ def py_eval(scope, t):
         return r[1].replace("\\", "\\\\").replace("|", "\\|").replace(";", "\\;")
     if k == "seq":
         return "".join(py_eval(scope, x) for x in a)
+    if k == "expr":
+        # `{{ e }}` / `{{ e ~ f }}`: both operands are evaluated, then printed
+        vals = [py_expr(scope, a["e"])] + ([py_expr(scope, a["cat"])] if a.get("cat") is not None else [])
+        if any(has_undef(v) for v in vals):
+            raise Stop("undefined")
+        return "".join(py_show(v) for v in vals)
     if k == "for":
         r = py_resolve(scope, path_of(a["p"]))
         if r[0] != "val":
@@ -170,6 +176,8 @@ def show_t(t):
         return "{{" + show_path(a) + "|escape}}"
     if k == "seq":
         return "".join(show_t(x) for x in a)
+    if k == "expr":
+        return "{{ " + show_e(a["e"]) + (" ~ " + show_e(a["cat"]) if a.get("cat") is not None else "") + " }}"
     if k == "for":
         return "{% for " + a["v"] + " in " + show_path(a["p"]) + " %}" + show_t(a["body"]) + "{% endfor %}"
     if k == "if":
@@ -177,9 +185,73 @@ def show_t(t):
     raise AssertionError(k)
 
 
+# ---- expressions: references inside list / tuple / dict literals, dict(k=…), x|default('d')
+
+
+class _Undef:
+    """the oracle's own marker for "an undefined name was evaluated here" (no Jinja object involved)"""
+
+    def __repr__(self):
+        return "<UNDEF>"
+
+
+UNDEF = _Undef()
+
+
+def py_expr(scope, e):
+    """value of an expression with UNDEF where an undefined reference is stored; Stop('undefined') when a step is
+    taken past an undefined one"""
+    k = next(iter(e))
+    a = e[k]
+    if k == "ref":
+        r = py_resolve(scope, path_of(a))
+        if r[0] == "broken":
+            raise Stop("undefined")
+        return r[1] if r[0] == "val" else UNDEF
+    if k == "dflt":
+        r = py_resolve(scope, (a["x"], []))
+        return r[1] if r[0] == "val" else a["d"]
+    kind, items = a["k"], a["items"]
+    vals = [(key, py_expr(scope, x)) for key, x in items]
+    if kind == "list":
+        return [v for _, v in vals]
+    if kind == "tuple":
+        return tuple(v for _, v in vals)
+    return dict(vals)
+
+
+def has_undef(v):
+    if v is UNDEF:
+        return True
+    if isinstance(v, (list, tuple)):
+        return any(has_undef(x) for x in v)
+    if isinstance(v, dict):
+        return any(has_undef(x) for x in v.values())
+    return False
+
+
+def show_e(e):
+    k = next(iter(e))
+    a = e[k]
+    if k == "ref":
+        return show_path(a)
+    if k == "dflt":
+        return a["x"] + "|default('" + a["d"] + "')"
+    kind, items = a["k"], a["items"]
+    if kind == "list":
+        return "[" + ", ".join(show_e(x) for _, x in items) + "]"
+    if kind == "tuple":
+        return "(" + ", ".join(show_e(x) for _, x in items) + (",)" if len(items) == 1 else ")")
+    if kind == "dict":
+        return "{" + ", ".join("'" + key + "': " + show_e(x) for key, x in items) + "}"
+    return "dict(" + ", ".join(key + "=" + show_e(x) for key, x in items) + ")"
+
+
 def show_src(s):
     if "text" in s:
         return show_t(s["text"])
+    if "natE" in s:
+        return "{@" + s["natE"]["l"] + show_e(s["natE"]["e"]) + s["natE"]["r"] + "@}"
     if "nat" in s:
         return "{@" + s["nat"]["l"] + show_path(s["nat"]["p"]) + s["nat"]["r"] + "@}"
     return "{@" + show_path(s["nat2"][0]) + "@}{@" + show_path(s["nat2"][1]) + "@}"
@@ -190,6 +262,8 @@ def val_j(v):
         return v
     if isinstance(v, list):
         return [val_j(x) for x in v]
+    if isinstance(v, tuple):
+        return {"tuple": [val_j(x) for x in v]}
     if isinstance(v, dict):
         return {"rec": [[k, val_j(x)] for k, x in v.items()]}
     return {"py": repr(v)}
@@ -520,6 +594,113 @@ def gen_case(rng):
     return {"value": value, "ctx": ctx_used, "ast": src, "fn": fn, "labels": labels}
 
 
+# ------------------------------------------------------------------ generators: the CLASS of F-C16-c
+# an undefined name stored at every depth of nested list / tuple / dict literals and dict(k=…) calls (as the value
+# of a dict entry, as an element), printed ({{ e }}), concatenated ({{ a ~ e }}, {{ e ~ a }}) or returned ({@ e @}),
+# each with a DEFINED twin (exact value) and a `|default('d')`-protected twin (NOT an error).
+
+E_KINDS = ["list", "tuple", "dict", "dictcall"]
+E_DEFAULTS = ["d", "dflt", "zz", "", "none given"]
+
+
+def repr_safe(v):
+    """values whose Python repr the model prints exactly: no quotes / backslashes / unprintable characters"""
+    if isinstance(v, str):
+        return v.isprintable() and not set(v) & set("'\"\\")
+    if isinstance(v, list):
+        return all(repr_safe(x) for x in v)
+    if isinstance(v, dict):
+        return all(repr_safe(x) for x in v.values())
+    return False
+
+
+def e_leaf(rng, scope):
+    """a harmless leaf: a defined reference, or a `default`-protected name (defined or not)"""
+    r = rng.random()
+    names = {n for n, _ in scope}
+    if r < 0.2:
+        cands = [n for n, v in scope if repr_safe(v)] if rng.random() < 0.5 else []
+        miss = [m for m in MISSING if m not in names]
+        x = rng.choice(cands) if cands else (rng.choice(miss) if miss else None)
+        if x is not None:
+            return {"dflt": {"x": x, "d": rng.choice(E_DEFAULTS)}}
+    c = [p for p, v in all_paths(scope) if repr_safe(v)]
+    if not c:
+        return {"coll": {"k": "list", "items": []}}
+    return {"ref": path_j(*restyle(rng, rng.choice(c)))}
+
+
+def e_skeleton(rng, scope, depth, hole_path):
+    """a container expression of the given nesting depth whose innermost level holds the marker `HOLE`;
+    hole_path records the kinds on the way down"""
+    kind = rng.choice(E_KINDS)
+    hole_path.append(kind)
+    n = rng.randint(1, 3)
+    at = rng.randrange(n)
+    keys = rng.sample(FIELDS, n) if kind in ("dict", "dictcall") else [""] * n
+    items = []
+    for i in range(n):
+        if i == at:
+            x = "HOLE" if depth <= 1 else e_skeleton(rng, scope, depth - 1, hole_path)
+        elif rng.random() < 0.25 and depth > 1:
+            x = e_skeleton(rng, scope, 1, [])
+            x = fill_hole(x, e_leaf(rng, scope))
+        else:
+            x = e_leaf(rng, scope)
+        items.append([keys[i], x])
+    return {"coll": {"k": kind, "items": items}}
+
+
+def fill_hole(e, leaf):
+    if e == "HOLE":
+        return leaf
+    if "coll" in e:
+        return {"coll": {"k": e["coll"]["k"], "items": [[k, fill_hole(x, leaf)] for k, x in e["coll"]["items"]]}}
+    return e
+
+
+def gen_expr_cases(rng):
+    """one skeleton → the undefined case, its defined twin and its default-protected twin"""
+    ctx = gen_ctx(rng)
+    ctx.setdefault("word", "w")
+    scope = list(ctx.items())
+    names = set(ctx)
+    miss = [m for m in MISSING if m not in names]
+    if not miss:
+        return []
+    depth = rng.choice([1, 1, 2, 2, 3, 4])
+    hp = []
+    skel = e_skeleton(rng, scope, depth, hp)
+    inject = rng.choice(["misspelt_root", "misspelt_root", "misspelt_field", "missing_attr", "index_out_of_range", "step_past_undefined", "case_changed_root"])
+    bad = break_path(rng, scope, inject)
+    if bad is None:
+        inject, bad = "misspelt_root", (rng.choice(miss), [])
+    twins = [("undefined", {"ref": path_j(*restyle(rng, bad))}, inject),
+             ("defined", e_leaf(rng, scope), "none"),
+             ("default", {"dflt": {"x": rng.choice(miss), "d": rng.choice(E_DEFAULTS)}}, "none")]
+    form = rng.choice(["print", "print", "cat_right", "cat_left", "native", "native"])
+    out = []
+    for twin, leaf, inj in twins:
+        e = fill_hole(skel, leaf)
+        if form == "native":
+            pad = lambda: rng.choice(["", " ", "  ", "\n"])
+            src = {"natE": {"l": pad(), "e": e, "r": pad()}}
+        else:
+            other = e_leaf(rng, scope) if form != "print" else None
+            ex = {"e": e, "cat": None} if form == "print" else ({"e": other, "cat": e} if form == "cat_right" else {"e": e, "cat": other})
+            pieces = [{"lit": gen_lit(rng)}] if rng.random() < 0.3 else []
+            pieces.insert(rng.randint(0, len(pieces)), {"expr": ex})
+            src = {"text": {"seq": trim_ends(pieces)}}
+        text = show_src(src)
+        if text != text.strip():
+            continue
+        value = rng.choice(["", "", ""] + WS) + text + rng.choice(["", "", ""] + WS)
+        labels = {"ctx": "full", "kind": "expr_native" if form == "native" else "expr_text", "inject": inj,
+                  "expr": {"twin": twin, "form": form, "depth": depth, "hole_in": hp[-1], "via": "/".join(hp)}}
+        out.append({"value": value, "ctx": ctx, "ast": src, "fn": rng.choice(["pas", "parse"]), "labels": labels})
+    return out
+
+
 # ------------------------------------------------------------------ real side
 
 
@@ -555,6 +736,23 @@ def lenient_parser():
     return cp
 
 
+def shallow_parser():
+    """a CellParser whose environments use Jinja's plain StrictUndefined (str() fails, repr() is the word
+    'Undefined': what the repo had before the fix of F-C16-c) — to tie the model's `strictShallow` policy"""
+    from jinja2 import Environment, StrictUndefined
+    from jinja2.nativetypes import NativeEnvironment
+    from rpft.parsers.common.cellparser import CellParser
+
+    cp = CellParser()
+    old_e, old_n = cp.env, cp.native_env
+    cp.env = Environment(undefined=StrictUndefined)
+    cp.native_env = NativeEnvironment(variable_start_string=old_n.variable_start_string, variable_end_string=old_n.variable_end_string, undefined=StrictUndefined)
+    for k in ("escape", "eval"):
+        cp.env.filters[k] = old_e.filters[k]
+        cp.native_env.filters[k] = old_n.filters[k]
+    return cp
+
+
 def contains_undefined(x):
     from jinja2 import Undefined
 
@@ -565,6 +763,13 @@ def contains_undefined(x):
     if isinstance(x, dict):
         return any(contains_undefined(y) for y in x.values())
     return False
+
+
+def safe_repr(x):
+    try:
+        return repr(x)
+    except Exception as e:  # noqa: BLE001  (the repr() of the repo's undefined object raises)
+        return f"<{type(x).__name__} whose repr() raises {type(e).__name__}: {e}>"
 
 
 def run_real(cp, case):
@@ -591,6 +796,8 @@ def run_real(cp, case):
         out = {"error": "exception:" + exc[:80]}
     elif isinstance(res, Undefined):
         out = {"undefined_object": True}
+    elif contains_undefined(res):
+        out = {"holds_undefined": True}
     elif flag.boolean:
         out = {"value": val_j(res)}
     elif fn == "parse":
@@ -610,6 +817,12 @@ def expected(case):
     scope = list(ctx.items())
     if "nat2" in src:
         return ("nested",)
+    if "natE" in src:
+        try:
+            v = py_expr(scope, src["natE"]["e"])
+        except Stop:
+            return ("error_required",)
+        return ("error_required",) if has_undef(v) else ("value", v)
     if "nat" in src:
         r = py_resolve(scope, path_of(src["nat"]["p"]))
         return ("value", r[1]) if r[0] == "val" else ("error_required",)
@@ -619,26 +832,37 @@ def expected(case):
         return ("error_required",) if s.kind == "undefined" else ("type_error",)
 
 
+MODES = {
+    # mode → (parser, the model's configuration; `deep`: the wrapper of the repo searches the native result through containers)
+    "repo": {"text": "strict", "nat": "strict", "check": True, "deep": True},
+    "lenient": {"text": "lenient", "nat": "lenient", "check": True, "deep": True},
+    "shallow": {"text": "strictShallow", "nat": "strictShallow", "check": True, "deep": True},
+}
+
+
 def cell_worker(args):
-    seed, n, lenient = args
+    seed, n, mode = args
+    mode = {False: "repo", True: "lenient"}.get(mode, mode)
+    lenient = mode != "repo"          # (not the repo's own configuration: tie only, no oracle)
     rng = random.Random(seed)
     from rpft.parsers.common.cellparser import CellParser
 
-    cp = lenient_parser() if lenient else CellParser()
+    cp = {"repo": CellParser, "lenient": lenient_parser, "shallow": shallow_parser}[mode]()
     cases = []
     guard = 0
     while len(cases) < n and guard < n * 5:
         guard += 1
-        c = gen_case(rng)
-        if c is None:
-            continue
-        exp = expected(c)
-        if exp[0] == "value" and isinstance(exp[1], str) and literal_like(exp[1]):
-            continue        # NativeEnvironment literal_eval()s string results: outside the fragment
-        c["exp"] = exp
-        cases.append(c)
+        new = gen_expr_cases(rng) if rng.random() < (0.12 if mode != "shallow" else 0.6) else [gen_case(rng)]
+        for c in new:
+            if c is None:
+                continue
+            exp = expected(c)
+            if exp[0] == "value" and isinstance(exp[1], str) and literal_like(exp[1]):
+                continue        # NativeEnvironment literal_eval()s string results: outside the fragment
+            c["exp"] = exp
+            cases.append(c)
     drv = core.Driver()
-    cf = {"text": "lenient", "nat": "lenient", "check": True} if lenient else {"text": "strict", "nat": "strict", "check": True}
+    cf = MODES[mode]
     model = drv.results([{"op": "template.render", "cf": cf, "ctx": ctx_j(c["ctx"]), "value": c["value"], "ast": c["ast"], "fn": c["fn"]} for c in cases])
     stats, ties, viol, keys = {}, [], [], []
     sample = None
@@ -653,8 +877,14 @@ def cell_worker(args):
         mm = {k: v for k, v in m.items() if k != "path"}
         exp = c["exp"]
         lab = c["labels"]
-        tag = "lenient." if lenient else ""
+        tag = "" if mode == "repo" else mode + "."
         bump(f"{tag}cases")
+        if "expr" in lab:
+            x = lab["expr"]
+            for kx in ("twin", "form", "hole_in"):
+                bump(f"{tag}expr.{kx}.{x[kx]}")
+            bump(f"{tag}expr.depth.{x['depth']}")
+            bump(f"{tag}expr.{x['twin']}.{'error' if 'error' in mm else next(iter(mm))}")
         bump(f"{tag}kind.{lab['kind']}")
         bump(f"{tag}ctx.{lab['ctx']}")
         bump(f"{tag}fn.{c['fn']}")
@@ -665,10 +895,10 @@ def cell_worker(args):
             bump(f"{tag}use.{lab['use']}")
         bump(f"{tag}expect.{exp[0]}")
         bump(f"{tag}model.{'error.' + mm['error'] if 'error' in mm else next(iter(mm))}")
-        keys.append(json.dumps([c["value"], ctx_j(c["ctx"]), c["fn"], lenient], ensure_ascii=False, sort_keys=True))
-        rep = {"value": c["value"], "context": c["ctx"], "fn": c["fn"], "labels": lab, "real": {**facts, "res": repr(facts["res"])[:200]}}
+        keys.append(json.dumps([c["value"], ctx_j(c["ctx"]), c["fn"], mode], ensure_ascii=False, sort_keys=True))
+        rep = {"value": c["value"], "context": c["ctx"], "fn": c["fn"], "labels": lab, "real": {**facts, "res": safe_repr(facts["res"])[:200]}}
         if real != mm:
-            ties.append({**rep, "model": m, "real_canonical": real, "lenient_envs": lenient})
+            ties.append({**rep, "model": m, "real_canonical": real, "environments": mode})
         if lenient:
             continue
         if sample is None and exp[0] == "error_required":
@@ -682,9 +912,9 @@ def cell_worker(args):
                 viol.append({"what": "context None (omitted templating): the cell was not returned stripped and unevaluated", **rep, "expected": want})
         elif exp[0] == "error_required":
             if not reported:
-                viol.append({"what": "a reached reference is undefined in the context but no CRITICAL record / exception was produced; delivered: " + repr(delivered)[:120], **rep})
+                viol.append({"what": "a reached reference is undefined in the context but no CRITICAL record / exception was produced; delivered: " + safe_repr(delivered)[:120], **rep})
             elif delivered is not None and facts["exc"] is None:
-                viol.append({"what": "undefined reference reported, but a text/value was delivered all the same: " + repr(delivered)[:120], **rep})
+                viol.append({"what": "undefined reference reported, but a text/value was delivered all the same: " + safe_repr(delivered)[:120], **rep})
         elif exp[0] == "text":
             want = exp[1] if c["fn"] == "pas" else cp.split_into_lists(exp[1])
             if reported:
@@ -1011,36 +1241,132 @@ def known_findings_stream(ck):
     else:
         ck.violation("a row with false include_if is not simply dropped", {"rows": good, "errors": [r_good.exc, r_good.errors[:2]]})
 
-    # F-C16-c: undefined name nested inside a list / tuple / dict literal
+    # F-C16-d: the undefined object is stored in a container and then DROPPED or only COUNTED — nothing ever prints,
+    # compares, iterates or returns it (what is left of F-C16-c after its fix)
     cp = CellParser()
-    seen = []
-    for cell in ("{@ [nope] @}", "{@ (nope, a) @}", "{@ {'k': nope} @}", "{{ [nope] }}", "{{ a ~ [nope] }}", "{{ {'k': nope} }}", "{@ [a, row.nope] @}"):
-        ctx = {"a": "A", "row": {"name": "N"}}
-        with LogCapture() as cap:
-            try:
-                res = cp.parse_as_string(cell, ctx, CellParser.BooleanWrapper())
-                exc = None
-            except Exception as e:  # noqa: BLE001
-                res, exc = None, repr(e)
-        ck.case("F-C16-c " + cell, nontrivial=True)
-        silent = not cap.criticals() and exc is None
-        leaked = contains_undefined(res) or (isinstance(res, str) and "Undefined" in res)
-        # counterfactual: the same name un-nested is an error, the same literal over a defined name is fine
-        if silent and leaked:
-            seen.append({"cell": cell, "delivered": repr(res)})
-        elif silent:
-            ck.violation("container literal over an undefined name delivered something unexpected silently", {"cell": cell, "context": ctx, "delivered": repr(res)})
+    ctx = {"a": "A", "row": {"name": "N"}}
+    seen, fixed_forms = [], 0
+    for cell, twin, want in F_C16_D_FORMS:
+        res, reported, exc = run_cell(cp, cell, ctx)
+        res2, reported2, _ = run_cell(cp, twin, ctx)
+        ck.case("F-C16-d " + cell, nontrivial=True)
+        if reported2 or res2 != want:
+            ck.violation("container consumed by a filter / test / loop: the DEFINED twin is not delivered exactly",
+                         {"value": twin, "context": ctx, "fn": "pas", "delivered": safe_repr(res2), "expected": want})
+        if reported:
+            fixed_forms += 1
+        elif contains_undefined(res) or (isinstance(res, str) and "Undefined" in res):
+            ck.violation("an undefined name stored in a container is DELIVERED as an `Undefined` object / the word 'Undefined' without any error: " + safe_repr(res)[:80],
+                         {"value": cell, "context": ctx, "fn": "pas", "delivered": safe_repr(res)})
+        else:
+            seen.append({"cell": cell, "delivered": safe_repr(res)})
     if seen:
-        with LogCapture() as cap:
-            cp.parse_as_string("{@ nope @}", {"a": "A"})
-            ok_plain = bool(cap.criticals())
-        with LogCapture() as cap:
-            r = cp.parse_as_string("{@ [a] @}", {"a": "A"})
-            ok_def = not cap.criticals() and r == ["A"]
-        if ok_plain and ok_def:
-            ck.known("F-C16-c", "an undefined name nested inside a list/tuple/dict literal is delivered as an `Undefined` object / the text 'Undefined' without any error",
+        _, ok_plain, _ = run_cell(cp, "{{ nope }}", ctx)
+        _, ok_nested, _ = run_cell(cp, "{{ [nope] }}", ctx)
+        if ok_plain and ok_nested:
+            ck.known("F-C16-d", "an undefined name stored in a container literal (or by {% set %}) whose undefined object is then dropped or only counted "
+                     "— `[nope]|length`, `[a, nope]|first`, `[a, nope][0]`, `{% if [nope] %}`, `{% for x in [nope] %}` without using x — is delivered without any error",
                      seen[0])
-            ck.count("known_F-C16-c_forms", len(seen))
+            ck.count("known_F-C16-d_forms", len(seen))
+    ck.count("F-C16-d_forms_now_reported", fixed_forms)
+
+
+# (cell with the undefined name, the same cell over a defined name, what the defined twin must deliver)
+F_C16_D_FORMS = [
+    ("{{ [nope]|length }}", "{{ [a]|length }}", "1"),
+    ("{@ [nope, a]|length @}", "{@ [a, a]|length @}", 2),
+    ("{{ [a, nope]|first }}", "{{ [a, a]|first }}", "A"),
+    ("{{ [a, nope][0] }}", "{{ [a, a][0] }}", "A"),
+    ("{{ {'k': nope}|length }}", "{{ {'k': a}|length }}", "1"),
+    ("{% if [nope] %}y{% endif %}", "{% if [a] %}y{% endif %}", "y"),
+    ("{% for x in [nope] %}y{% endfor %}", "{% for x in [a] %}y{% endfor %}", "y"),
+    ("{% set x = [nope] %}ok", "{% set x = [a] %}ok", "ok"),
+]
+
+
+def run_cell(cp, cell, ctx, fn="pas"):
+    """→ (delivered, a problem was reported (CRITICAL record or exception), exception text)"""
+    from rpft.parsers.common.cellparser import CellParser
+
+    exc, res = None, None
+    with LogCapture() as cap:
+        try:
+            res = cp.parse(cell, copy.deepcopy(ctx)) if fn == "parse" else cp.parse_as_string(cell, copy.deepcopy(ctx), CellParser.BooleanWrapper())
+        except Exception as e:  # noqa: BLE001
+            exc = f"{type(e).__name__}: {e}"
+    return res, bool(cap.criticals()) or exc is not None, exc
+
+
+# ------------------------------------------------------------------ containers outside the model's fragment (direct oracle only)
+# shapes with ONE hole: an undefined name in the hole must be reported; a defined name / a `default`-protected
+# undefined name must deliver exactly `want(value of the hole)`.  The hole stands in an element / dict value /
+# dict KEY / dict(k=…) argument of a container that a filter, a loop, `+`, `~` or an index then USES.
+
+CONTAINER_SHAPES = [
+    ("{{ [%s]|join(',') }}", lambda h: h),
+    ("{{ [a, %s]|join('-') }}", lambda h: "A-" + h),
+    ("{{ (a, %s)|join }}", lambda h: "A" + h),
+    ("{{ [%s]|first }}", lambda h: h),
+    ("{{ [a, %s]|last }}", lambda h: h),
+    ("{@ [%s]|list @}", lambda h: [h]),
+    ("{@ [a, [%s]]|list @}", lambda h: ["A", [h]]),
+    ("{{ [%s]|string }}", lambda h: repr([h])),
+    ("{{ [[%s]]|first }}", lambda h: repr([h])),
+    ("{{ [%s][0] }}", lambda h: h),
+    ("{{ dict(k=%s).k }}", lambda h: h),
+    ("{{ {'k': [%s]}['k'] }}", lambda h: repr([h])),
+    ("{{ dict(k=%s)|string }}", lambda h: repr({"k": h})),
+    ("{{ [%s] + [a] }}", lambda h: repr([h, "A"])),
+    ("{@ [a] + [%s] @}", lambda h: ["A", h]),
+    ("{@ (%s, a) + (a,) @}", lambda h: (h, "A", "A")),
+    ("{{ a ~ (%s,) ~ a }}", lambda h: "A" + repr((h,)) + "A"),
+    ("{{ [a, {'k': (%s,)}]|string ~ a }}", lambda h: repr(["A", {"k": (h,)}]) + "A"),
+    ("{% for x in [a, %s] %}<{{ x }}>{% endfor %}", lambda h: "<A><" + h + ">"),
+    ("{% for x in [[%s]] %}{{ x }}{% endfor %}", lambda h: repr([h])),
+    ("{% for k, v in {'k': %s}.items() %}{{ k }}={{ v }}{% endfor %}", lambda h: "k=" + h),
+    ("{% set x = [%s] %}ok{{ x }}", lambda h: "ok" + repr([h])),
+    ("{{ {%s: 'v'} }}", lambda h: repr({h: "v"})),            # as a dict KEY
+    ("{@ {%s: a} @}", lambda h: {h: "A"}),
+    ("{@ {'k': {%s: [a]}} @}", lambda h: {"k": {h: ["A"]}}),
+    ("{@ [%s, a]|reverse|list @}", lambda h: ["A", h]),
+    ("{{ [%s]|map('upper')|list }}", lambda h: repr([h.upper()])),
+    ("{{ [%s]|sort }}", lambda h: repr([h])),
+]
+
+
+def container_stream(ck):
+    from rpft.parsers.common.cellparser import CellParser
+
+    rng = ck.rng
+    cp = CellParser()
+    reps = 2 if ck.tier == "quick" else 12
+    for shape, want in CONTAINER_SHAPES:
+        for _ in range(reps):
+            word = rng.choice(["beta", "b c", "Zed", "x1"])
+            ctx = {"a": "A", "b": word, "row": {"name": word, "n": "7"}, "xs": [word, "q"]}
+            undefined = rng.choice(["nope", "nmae", "row.nope", "row['nmae']", "xs[5]", "B", "nope.x"])
+            defined, val = rng.choice([("b", word), ("row.name", word), ("row['n']", "7"), ("xs[0]", word), ("xs[1]", "q")])
+            dflt = rng.choice(["d", "none given", "zz"])
+            fn = rng.choice(["pas", "parse"])
+            native = shape.startswith("{@")
+            for twin, hole, hv in (("undefined", undefined, None), ("defined", defined, val), ("default", rng.choice(["nope", "nmae"]) + f"|default('{dflt}')", dflt)):
+                cell = shape.replace("%s", hole)
+                res, reported, exc = run_cell(cp, cell, ctx, fn)
+                ck.case(json.dumps(["container", cell, word, fn]), nontrivial=True)
+                ck.count(f"container.{twin}")
+                ck.count("container.shapes." + ("native" if native else "text"))
+                rp = {"value": cell, "context": ctx, "fn": fn, "twin": twin, "delivered": safe_repr(res)[:200]}
+                if twin == "undefined":
+                    if not reported:
+                        ck.violation("an undefined name stored in a container that is then used (filter / loop / + / ~ / index / dict key) is not reported; delivered: " + safe_repr(res)[:100], rp)
+                    continue
+                w = want(hv)
+                if fn == "parse" and not native:
+                    w = cp.split_into_lists(w)
+                if reported:
+                    ck.violation(f"container expression over a {'defined name' if twin == 'defined' else 'default-protected name'}: an error is reported", {**rp, "expected": safe_repr(w), "exc": exc})
+                elif res != w or type(res) is not type(w):
+                    ck.violation(f"container expression over a {'defined name' if twin == 'defined' else 'default-protected name'}: not exactly the value", {**rp, "expected": safe_repr(w)})
 
 
 def eval_filter_stream(ck):
@@ -1478,6 +1804,9 @@ def run(ck: core.Check):
     ck.rule = (
         "cell level: random contexts (nested records/lists/strings, empty, None) × templates of the model's fragment printed in Jinja "
         "syntax (literals incl. separators/braces/unicode, {{p}}, {{p|escape}}, {% for %}, {% if == %}, {@ p @}, two natives), half of "
+        "them — plus, 12 %: container expressions (list/tuple/dict/dict() literals nested 1–4 deep, the hole an element or a dict value at the innermost level, "
+        "printed / concatenated left or right / returned natively) in three twins: hole = an undefined reference (7 ways of being missing), a defined one, "
+        "a `|default`-protected missing name; 28 hand-written container shapes outside the model (filters, loops, +, ~, index, dict key) × random names × the same three twins — half of "
         "them with ONE reference broken in one of 10 ways (misspelt root/field, missing attribute, field of a sibling record, index out of "
         "range, attribute of a string/list, step past an undefined, integer index on a record, case changed, loop variable outside its "
         "loop) placed at top level / inside a loop body / inside a true if / inside a false if / inside a loop over nothing, random "
@@ -1493,21 +1822,29 @@ def run(ck: core.Check):
     ]
     ck.partial_gap = [
         "delivered_no_blank over whole sheets (no instantiated cell of a delivered row contains an undefined reference) is checked on the real compiler for every cell of the explored sheets, not proved: there is no Lean model of the templated row/sheet parser; the cell-level theorems are proved for all templates and contexts of the fragment",
-        "Jinja expressions outside the fragment (filters other than escape, arithmetic, container literals — see F-C16-c, tests, set) are not modelled",
+        "Jinja expressions outside the fragment (filters other than escape / default, arithmetic, tests, set, comprehensions; a container that is consumed by a filter or a loop; dict literals with a repeated key) are not modelled — containers used by filters / loops / + / index are checked by the direct oracle only (container stream); a stored undefined object that is never used is F-C16-d",
     ]
 
     # ---- B + C at the cell level
     n_cases = 6000 if quick else 60000
     shards = par.NPROC * (1 if quick else 4)
-    jobs = [(ck.rng.randrange(1 << 60), n_cases // shards, False) for _ in range(shards)]
+    jobs = [(ck.rng.randrange(1 << 60), n_cases // shards, "repo") for _ in range(shards)]
     n_len = 1600 if quick else 12000
-    jobs += [(ck.rng.randrange(1 << 60), n_len // par.NPROC, True) for _ in range(par.NPROC)]
+    jobs += [(ck.rng.randrange(1 << 60), n_len // par.NPROC, "lenient") for _ in range(par.NPROC)]
+    jobs += [(ck.rng.randrange(1 << 60), n_len // par.NPROC, "shallow") for _ in range(par.NPROC)]
     fold_cell(ck, par.pmap(cell_worker, jobs))
 
     # kernel-checked witnesses of Props/C16.lean replayed on the real code
     from rpft.parsers.common.cellparser import CellParser
-    cp, lp = CellParser(), lenient_parser()
+    cp, lp, sp = CellParser(), lenient_parser(), shallow_parser()
     wit = [
+        ("needs_deep_strict (plain StrictUndefined prints the stored object)", sp, "{{ [nope] }}", {"a": "A"}, "[Undefined]"),
+        ("needs_deep_strict (concatenation)", sp, "{{ a ~ {'k': nope} }}", {"a": "A"}, "A{'k': Undefined}"),
+        ("needs_deep_strict (un-nested is an error)", sp, "{{ nope }}", {"a": "A"}, None),
+        ("nested undefined is an error", cp, "{{ [a, {'k': (nope,)}] }}", {"a": "A"}, None),
+        ("default-protected twin", cp, "{{ [a, {'k': (nope|default('d'),)}] }}", {"a": "A"}, "['A', {'k': ('d',)}]"),
+        ("defined twin, concatenated", cp, "{{ a ~ dict(k=a) }}", {"a": "A"}, "A{'k': 'A'}"),
+        ("needs_deep_check (repo half)", cp, "{@ [nope] @}", {"a": "A"}, None),
         ("lenient_blank", lp, "Hi {{nmae}}!", {"name": "N"}, "Hi !"),
         ("strict_not_blank", cp, "Hi {{nmae}}!", {"name": "N"}, None),
         ("loop variable gone after the loop", cp, "{% for v in xs %}{{v}}{% endfor %}{{v}}", {"xs": ["a"]}, None),
@@ -1525,6 +1862,7 @@ def run(ck: core.Check):
 
     # ---- known findings (deterministic)
     known_findings_stream(ck)
+    container_stream(ck)
     eval_filter_stream(ck)
 
     # ---- end to end: every cell
@@ -1603,7 +1941,7 @@ def run(ck: core.Check):
     # ---- obligation broken → search harder with the direct oracle
     if (ck.tie_breaks or not ck.lean.ok) and not ck.violations and quick:
         ck.search_ran = True
-        jobs = [(ck.rng.randrange(1 << 60), 2500, False) for _ in range(par.NPROC)]
+        jobs = [(ck.rng.randrange(1 << 60), 2500, "repo") for _ in range(par.NPROC)]
         fold_cell(ck, par.pmap(cell_worker, jobs))
         # the disagreeing inputs and their neighbours: same cell under other contexts / entry point
         for t in [t for t in ck.tie_breaks if t][:20]:
@@ -1625,7 +1963,10 @@ def run(ck: core.Check):
 
     # ---- generator self-check
     need = ["inject.none", "kind.native", "kind.text", "ctx.none", "ctx.empty", "where.unreached_if", "where.unreached_for", "where.in_for",
-            "expect.error_required", "expect.text", "expect.value", "expect.stripped", "e2e.injected", "e2e.control", "lenient.cases",
+            "expect.error_required", "expect.text", "expect.value", "expect.stripped", "e2e.injected", "e2e.control", "lenient.cases", "shallow.cases",
+            "expr.twin.undefined", "expr.twin.defined", "expr.twin.default", "expr.undefined.error", "expr.default.text", "expr.default.value", "expr.defined.text", "expr.defined.value",
+            "expr.form.print", "expr.form.cat_left", "expr.form.cat_right", "expr.form.native", "expr.depth.1", "expr.depth.2", "expr.depth.3",
+            "shallow.expr.undefined.text", "lenient.expr.undefined.holds_undefined", "container.undefined", "container.defined", "container.default",
             "multi.stale_prone", "multi.combined_accepted", "multi.combined_rejected", "multi.solo_ok", "multi.solo_rejected"] + [f"multi.kind.{k}" for k in M_SCENARIOS] + [f"inject.{k}" for k in MISSING_KINDS + ["loop_var_outside"]]
     for s in need:
         if ck.strata.get(s, 0) < 3:
